@@ -17,7 +17,7 @@ class C13(Oracle):
         self.nbaulkdec = 0
         self.snap = {}
         self.hist = {}          # (node, ind) -> [patience of 1st visit, of 2nd visit, ...] (None: no patience drawn)
-        self.seen_seq = 0
+        self.pat_seq = {}       # (node, ind) -> sequence number of the last patience draw already attributed to a visit
         self.renpat = {}
         self.cust = {}
         R.hooks.baulk_cbs.append(self.on_baulk)
@@ -34,14 +34,17 @@ class C13(Oracle):
         return -1
 
     def patience_drawn_since(self, nid, iid, seq0):
-        out = None
+        """the patience drawn for this customer at this node after sequence number seq0 (accepts can nest: an arrival that
+        pre-empts with 'reroute' completes another customer's accept elsewhere before its own is announced)"""
+        out, at = None, seq0
         for key, calls in self.R.log.samples.items():
             if key[0] == "ren" and key[1] == nid:
                 for c in reversed(calls):
                     if c[4] <= seq0:
                         break
                     if c[2] == iid:
-                        out = c[3]
+                        out, at = c[3], c[4]
+        self.pat_seq[(nid, iid)] = at
         return out
 
     def patience(self, nid, iid):
@@ -73,8 +76,7 @@ class C13(Oracle):
     def micro(self, ev):
         if ev[2] == "acc":
             nid, iid = ev[3], ev[4]
-            self.hist.setdefault((nid, iid), []).append(self.patience_drawn_since(nid, iid, self.seen_seq))
-            self.seen_seq = ev[0]
+            self.hist.setdefault((nid, iid), []).append(self.patience_drawn_since(nid, iid, self.pat_seq.get((nid, iid), 0)))
             return
         if ev[2] != "ren":
             return
